@@ -13,6 +13,7 @@ construction scripts on the real `HierarchicalMachine`:
 All scripts of one description must give the same state tree, the same per-scope event tables and the same
 recorder traces."""
 import copy
+import enum
 import random
 import types
 
@@ -34,6 +35,7 @@ class HKnobs(object):
         self.p_raise = 0.02
         self.p_cond_false = 0.35
         self.detours = False
+        self.enum = False          # local names repeated across levels + Enum-class realisations of the tree
         self.nvariants = 3
         self.__dict__.update(kw)
 
@@ -84,7 +86,8 @@ def gen_hcase(rng, kn):
                 'after': cbs('after', 0.85), 'prepare': cbs('prepare', 0.9)}
     # compounds whose children are all leaves may carry local transitions and exits (embedding candidates)
     for n in top:
-        if n['children'] and all(not c['children'] for c in n['children']) and rng.random() < kn.p_embed:
+        if (not kn.enum and n['children'] and all(not c['children'] for c in n['children'])
+                and rng.random() < kn.p_embed):
             kids = [c['id'] for c in n['children']]
             local = [[2 * rng.randrange(nev), rng.choice(kids), rng.choice(kids), tcb()] for _ in range(rng.randint(1, 3))]
             others = [t['id'] for t in top if t is not n]
@@ -109,13 +112,27 @@ def gen_hcase(rng, kn):
             if out != ['ret', True]:
                 script.append([[c, k], [[], out]])
     history = [[0, 0, 2 * rng.randrange(nev + (1 if rng.random() < 0.1 else 0))] for _ in range(rng.randint(2, kn.max_history))]
-    return {'top': top, 'transitions': transitions, 'initial': rng.choice(top)['id'], 'opts': opts, 'nev': nev,
+    labels = []
+    if kn.enum:
+        # local names from a small pool: unique among siblings, deliberately repeated across levels / branches
+        def label(nodes):
+            pool = ['a0', 'a1', 'a2', 'a3', 'a4']
+            rng.shuffle(pool)
+            for n_, l in zip(nodes, pool):
+                labels.append([n_['id'], l])
+                label(n_['children'])
+        label(top)
+    return {'labels': labels, 'enum': bool(kn.enum),
+            'top': top, 'transitions': transitions, 'initial': rng.choice(top)['id'], 'opts': opts, 'nev': nev,
             'cb_slot': sorted(cb_slot.items()), 'script': script, 'history': history,
             'vseeds': [rng.randrange(1 << 30) for _ in range(kn.nvariants)], 'detours': kn.detours}
 
 
+LABELS = {}     # node id -> local state name of the case being realised in this process (default n<id>)
+
+
 def nname(k):
-    return 'n%d' % k
+    return LABELS.get(k, 'n%d' % k)
 
 
 def paths_of(case):
@@ -195,8 +212,17 @@ def derive_h(case, vseed, identity=False):
                 taken.add((dt['ev'], dt['src'], dt['dst']))
                 detours.append(dt)
     deferring = any(p['defer_from'] is not None for p in plan.values())
-    return {'plan': sorted(plan.items()), 'tplan': tplan, 'detours': detours, 'seed': vseed,
-            'model_in_ctor': coin(0.5) and not deferring}
+    out = {'plan': sorted(plan.items()), 'tplan': tplan, 'detours': detours, 'seed': vseed,
+           'model_in_ctor': coin(0.5) and not deferring}
+    if case.get('enum'):
+        # the whole tree as (nested) Enum classes; transition end points as Enum members or joined names
+        out['enum_tree'] = coin(0.75)
+        out['tnames'] = [[rng.choice(['enum', 'str']) if out['enum_tree'] else 'str' for _ in range(2)]
+                         for _t in case['transitions']]
+        out['initial_rep'] = rng.choice(['enum', 'str']) if out['enum_tree'] else 'str'
+        if out['enum_tree']:
+            out['model_in_ctor'] = coin(0.5)
+    return out
 
 
 # ---------------------------------------------------------------------------------------------
@@ -217,7 +243,9 @@ class RunH(build13.Run13):
         self.error = None
         self.paths = paths_of(case)
         self.plan = dict(variant['plan'])
+        self.member = {}
         self.activate()
+        self.name_id = {full(self.paths, k): k for k in self.paths}
         try:
             self.construct()
         except common.MachineryError:
@@ -225,14 +253,58 @@ class RunH(build13.Run13):
         except Exception as e:
             self.error = [type(e).__name__, str(e)[:200]]
 
+    def activate(self):
+        build13.Run13.activate(self)
+        LABELS.clear()
+        LABELS.update({k: l for k, l in self.case.get('labels', [])})
+
     def state_id(self, model):
         v = getattr(model, 'state', None)
-        if isinstance(v, str):
-            last = v.rsplit(SEP, 1)[-1]
-            if last.startswith('n') and last[1:].isdigit():
-                return int(last[1:])
+        if isinstance(v, enum.Enum) and v in self.enum_id:
+            return self.enum_id[v]
+        if isinstance(v, str) and v in self.name_id:
+            return self.name_id[v]
         self.bad.append(('odd-state', repr(v)))
         return 999999
+
+    def build_enums(self):
+        """the state tree as nested Enum classes: a compound's value is its children's Enum class or a dict
+        (callbacks, initial, 'children' | 'states': Enum class); a leaf's value is a dict (callbacks) or a number"""
+        self.enum_id = {}
+
+        def mk(nodes, cname):
+            vals = {}
+            for n in nodes:
+                kids = mk(n['children'], 'E%d' % n['id']) if n['children'] else None
+                d = {}
+                if n['on_enter']:
+                    d['on_enter'] = self.names(n['on_enter'])
+                if n['on_exit']:
+                    d['on_exit'] = self.names(n['on_exit'])
+                if n['initial'] is not None:
+                    d['initial'] = nname(n['initial'])
+                if kids is not None:
+                    if d or self.plan[n['id']]['key'] == 'states':
+                        d[self.plan[n['id']]['key']] = kids
+                        val = d
+                    else:
+                        val = kids
+                else:
+                    val = d if d else 100 + n['id']
+                vals[nname(n['id'])] = val
+            cls = enum.Enum(cname, vals)
+            for n in nodes:
+                mem = cls[nname(n['id'])]
+                if mem.name != nname(n['id']):
+                    raise common.MachineryError('Enum alias in generated tree')
+                self.member[n['id']] = mem
+                self.enum_id[mem] = n['id']
+            return cls
+        return mk(self.case['top'], 'Top')
+
+    def ep(self, k, rep):
+        """a transition end point: Enum member or separator-joined name"""
+        return self.member[k] if rep == 'enum' else full(self.paths, k)
 
     def names(self, cs):
         return [self.cb(c) for c in cs]
@@ -323,8 +395,15 @@ class RunH(build13.Run13):
         case, o = self.case, self.case['opts']
         mo = self.model_objs[0]
         deferred = []
-        states = [self.node_def(n, deferred) for n in case['top']]
-        kw = dict(model=mo if self.v['model_in_ctor'] else None, states=states, initial=nname(case['initial']),
+        self.enum_id = {}
+        enum_tree = self.v.get('enum_tree', False)
+        if enum_tree:
+            states = self.build_enums()
+            init = self.member[case['initial']] if self.v['initial_rep'] == 'enum' else nname(case['initial'])
+        else:
+            states = [self.node_def(n, deferred) for n in case['top']]
+            init = nname(case['initial'])
+        kw = dict(model=mo if self.v['model_in_ctor'] else None, states=states, initial=init,
                   auto_transitions=False, send_event=o['send_event'], ignore_invalid_triggers=o['mign'])
         for key, arg in (('prepare_event', 'prepare_event'), ('finalize', 'finalize_event'),
                          ('before_sc', 'before_state_change'), ('after_sc', 'after_state_change')):
@@ -334,7 +413,9 @@ class RunH(build13.Run13):
         # right after the compound (before any other global transition), so the explicit form does the same
         exits_first = any(n['embed'] and n['embed']['exits'] and self.plan[n['id']]['embed'] != 'machine'
                           for n in case['top'])
-        tdefs = [(ev_name(ev), full(self.paths, s), full(self.paths, t), cb) for ev, s, t, cb in case['transitions']]
+        tn = self.v.get('tnames') or [['str', 'str']] * len(case['transitions'])
+        tdefs = [(ev_name(ev), self.ep(s, r[0]), self.ep(t, r[1]), cb)
+                 for (ev, s, t, cb), r in zip(case['transitions'], tn)]
         tplan = self.v['tplan']
         ctor_ts = []
         if not exits_first:
